@@ -399,13 +399,12 @@ def _cfg_widths(ctx, drv):
     """Byte widths of the self._cfg entries: constructor literal plus every later store."""
     widths = {}
     init = drv.methods["__init__"]
-    for n in walk(init):
-        if isinstance(n, ast.Assign) and attr_path(n.targets[0]) == "self._cfg" and isinstance(n.value, ast.Dict):
-            for k, v in zip(n.value.keys, n.value.values):
-                kk = ctx.folder.eval(k, drv.module)
-                vv = ctx.folder.eval(v, drv.module)
-                if isinstance(vv, bytes):
-                    widths.setdefault(kk, set()).add(len(vv))
+    from .common import initial_cfg
+
+    cfg0, _why = initial_cfg(ctx)  # (what the constructor leaves in _cfg, however it assembles it)
+    for kk, vv in (cfg0 or {}).items():
+        if isinstance(vv, bytes):
+            widths.setdefault(kk, set()).add(len(vv))
     for c in ctx.model.subclasses(drv):
         for m in c.methods.values():
             for n in walk(m):
@@ -480,6 +479,15 @@ def d10_9(ctx):
                 k = ctx.folder.eval(n.slice, drv.module)
                 if isinstance(k, str):
                     out.add(k)
+                elif isinstance(n.slice, ast.Name):
+                    # a key that ranges over a constant sequence (`self._cfg[k] for k in ("csn", "vid")`, a for loop): every element
+                    for b in walk(fn):
+                        gens = b.generators if isinstance(b, (ast.ListComp, ast.GeneratorExp, ast.SetComp, ast.DictComp)) else [b] if isinstance(b, ast.For) else []
+                        for g_ in gens:
+                            if isinstance(g_.target, ast.Name) and g_.target.id == n.slice.id:
+                                seq = ctx.folder.eval(g_.iter, drv.module)
+                                if isinstance(seq, (list, tuple, frozenset)):
+                                    out.update(x for x in seq if isinstance(x, str))
         return out
 
     fo, fc = drv.methods.get("_forward_open"), drv.methods.get("_forward_close")
